@@ -1,16 +1,27 @@
 import os
 from runner import Property, Engine
 import dnsgen
+import transportgen
 
 os.environ.setdefault("WIRE_ORACLES", "C03")
+os.environ.setdefault("CHAN20_ORACLES", "C03")
+
+CHAN_WRAPS = ["ares_tvnow", "ares_rand_bytes", "ares_generate_new_id", "ares_htable_hash_FNV1a", "ares_htable_hash_FNV1a_casecmp"]
 
 PROP = Property(
     pid="C03",
     properties_v="Properties/Properties_C03.v",
-    coq_targets=["Extract/Extract_Wire.vo"],
+    coq_targets=["Extract/Extract_Wire.vo", "Extract/Extract_Frame.vo"],
     engines=[Engine(name="wire", c_srcs=["harness/wire_drv.c"],
                     ml_srcs=["ocaml/gen/WireModel.ml", "ocaml/wire_drv.ml"],
-                    gen=dnsgen.gen_c03, n_quick=10000, n_thorough=120000, sep=";", timeout=600)],
+                    gen=dnsgen.gen_c03, n_quick=10000, n_thorough=120000, sep=";", timeout=600),
+             # "the same holds for the length-prefixed frames the library actually hands to sockets":
+             # C20's simulator engine (every buffer given to asendto / the TCP stream at the virtual
+             # server), judged here on the frame oracles only (CHAN20_ORACLES=C03: kinds
+             # udp-datagram-not-one-message, tcp-frame-malformed, tcp-frame-mismatch, framing)
+             Engine(name="chan20", c_srcs=["harness/sim.c", "harness/c20_drv.c"],
+                    ml_srcs=["ocaml/gen/FrameModel.ml", "ocaml/c20_drv.ml"],
+                    gen=transportgen.gen_frames, wraps=CHAN_WRAPS, n_quick=600, n_thorough=12000, timeout=1200)],
     trusted_base=["Coq 8.16.1 kernel + coqc (vm_compute; no native_compute)",
                   "extraction (ExtrOcamlBasic only, no Extract Constant) + OCaml 4.13.1",
                   "coq/Wire/Roundtrip.v record_eqb + Escape.v unescape (what 'equal field by field' means: names as label sequences)",
